@@ -140,17 +140,19 @@ def main():
         desc.update(pad=pad)
         wq = ["depthwise_quantizer_internal", "pointwise_quantizer_internal", "bias_quantizer_internal"]
       elif kind in ("avgpool", "gap"):
-        avq = pick(rng, ["quantized_bits(8,0,1)", "quantized_bits(4,0,1)", None])
+        rot = i // len(kinds)                      # the k-th pooling case: quantizer and window shape in rotation, never left to chance
+        avq = ["quantized_bits(8,0,1)", "quantized_bits(4,0,1)", None][rot % 3]
         desc.update(avq=avq)
         hh, ww = int(rng.integers(5, 10)), int(rng.integers(5, 10))
         x = rng.normal(0, 1, size=(2, hh, ww, 3)).astype(np.float32)
         if kind == "avgpool":
           # square (int) and rectangular (tuple) windows, explicit strides, both paddings
-          if rng.integers(0, 2):
+          if (rot // 3) % 2 == 1:
             ps = int(rng.integers(1, 4))
             area = ps * ps
           else:
-            ps = (int(rng.integers(1, 4)), int(rng.integers(1, 5)))
+            ph_ = int(rng.integers(1, 4))
+            ps = (ph_, ph_ + int(rng.integers(1, 3)))        # rectangular: the two extents differ
             area = ps[0] * ps[1]
           st = None if rng.integers(0, 2) else (int(rng.integers(1, 3)), int(rng.integers(1, 3)))
           pp = pick(rng, ["valid", "valid", "same"]) if avq is None else "valid"
